@@ -11,6 +11,10 @@ real run : (mode "async") the real AsyncTCPNetworkServer / AsyncUDPNetworkServer
            a reporting stand-in for the portal's RLock and a delegating portal stop the threads at scripted steps);
            (mode "portal") backend.create_threads_portal() driven directly by caller threads while it exits, same gates
            (vlib/c18_gates.py).
+           Round 5: `acc` = script of accept() failures (capacity errnos -> the listener's 100 ms back-off; the harness event
+           loop's sock_accept raises them) with stop / shutdown / server_close / cancel landing in the back-off and a second
+           serve_forever on the same server; gated histories that keep the loop thread in the tail of the tear-down (after the
+           portal exit) while other threads call shutdown / serve_forever / server_close.
 model run: the observed linearisation (which call started / returned when, with what outcome, the is_serving /
            is_listening flags seen from outside, quiescence points) is given to the Lean transition systems
            EasyNet.Life.A / EasyNet.Life.S (endriver, `life-async` / `life-sa`), which search for a model execution
@@ -67,7 +71,10 @@ RULE = (
     "and a rendez-vous in the start-up window; gated: get_addresses, persistent client, a cross-thread call stopped at "
     "{before the portal lock, portal checked, waiter registered} until the portal exit / loop shut-down has reached {flag flipped, "
     "exit returned, main coroutine done, last loop iteration done, before / after loop.close()}; ThreadsPortal directly: "
-    "run_sync / run_sync_soon / run_coroutine / run_coroutine_soon x the same windows x exit normal / with an exception} "
+    "run_sync / run_sync_soon / run_coroutine / run_coroutine_soon x the same windows x exit normal / with an exception; "
+    "the loop thread kept in the tail of the tear-down (portal exited, loop / embedded server still closing) while 1-3 threads "
+    "call shutdown / serve_forever / server_close there; TCP: the listener's accept() failing with each capacity errno "
+    "(scripted in the harness event loop) with the stop landing in the 100 ms back-off, then serve again} "
     "x schedule (which caller moves at which loop turn, "
     "sleep(0) hops; for threads: barriers and PRNG jitters) x TCP/UDP x suspension points inside service_init and the "
     "listener factory; non-trivial = class of (outcomes seen, calls landing inside start-up / tear-down, restarts, clients); "
@@ -283,6 +290,22 @@ def oracle_threads(case: dict, real: list[str]) -> str | None:
         for p in calls:
             if p["op"] == "probe" and p["out"] == "serving=1" and p["start"] > d["ret"] and not later:
                 return "is_serving() is True after shutdown() returned (no serve_forever started since)"
+    # "shutdown returns only after serving has fully stopped", judged with the gates: the loop thread logs `@g L:<point>#n
+    # held:<why>` when it leaves a point of the tear-down it was kept at (portal exit, runner shut-down, loop.close()), i.e.
+    # while serve_forever() is still running; a shutdown() without timeout issued after that serve_forever() was up whose
+    # `ret` line precedes such a line has returned while serve_forever() was still tearing down
+    gates = [(k, ln.split()[1]) for k, ln in enumerate(real) if ln.startswith("@g L:") and " held:" in ln]
+    for d in shutdowns:
+        if d["out"] != "ok":
+            continue
+        for y in serves:
+            if y["up"] is None or y["up"] > d["start"]:
+                continue
+            for g, name in gates:
+                if y["up"] < g < y["ret"] and d["ret"] < g:
+                    return (f"shutdown() (thread {d['caller']}) returned while the serve_forever() of thread {y['caller']}, up before it was "
+                            f"called, was still tearing down: the loop thread was still parked at {name} (portal exited, event loop / "
+                            "embedded server not yet closed, is_shutdown not yet set)")
     # clients
     for k, ln in enumerate(real):
         if not ln.startswith("@echo "):
@@ -556,7 +579,25 @@ def nontrivial(case: dict, real: list[str]) -> str | None:
                 tags.append("gate-" + ln.split()[1].split(":")[1].split("#")[0] + "-" + ln.split("held:")[1])
                 break
         else:
-            tags.append("gate-none")
+            tail = next((ln for ln in real if ln.startswith("@g L:") and " held:" in ln), None) \
+                if any(h.get("until_all") for h in case.get("holds", [])) else None
+            # the loop thread kept in the tail of the tear-down while other threads made their calls: where, released by what
+            tags.append("gate-tail-" + tail.split()[1].split(":")[1].split("#")[0] + "-" + tail.split("held:")[1] if tail else "gate-none")
+    if case.get("acc"):
+        # an accept() failure answered with the back-off sleep, and a stop issued while the accept loop is still in it
+        in_backoff = False
+        hit = False
+        for ln in real:
+            if ln.startswith("@acc "):
+                in_backoff = ln.split()[2] in CAPACITY_ERRNOS
+            elif ln == "@tick" or ln.startswith("@echo"):
+                in_backoff = False
+            elif in_backoff and (ln.startswith("cancel ") or (ln.startswith("call ") and ln.split()[2] in ("shutdown", "close", "shutdownT"))):
+                hit = True
+                tags.append("acc-stop-in-backoff-" + ("cancel" if ln.startswith("cancel") else ln.split()[2]))
+                break
+        if not hit and any(ln.startswith("@acc") for ln in real):
+            tags.append("acc-fail")
     epi = len(case["progs"])          # the epilogue caller; larger ids: serve_forever threads of NetworkServerThread
     serves = [c for c in tr["calls"] if c["op"] == "serve" and c["caller"] != epi]
     outs = {c["out"] for c in tr["calls"] if c["caller"] != epi}
@@ -622,7 +663,7 @@ def nontrivial(case: dict, real: list[str]) -> str | None:
         tags.append("client")
     if not tags:
         return None
-    first = [t for t in tags if t.startswith("gate-")] + [t for t in ("act-queued+close", "act-queued", "nst-start-never-up", "nst-start-refused", "nst-join") if t in tags]
+    first = [t for t in tags if t.startswith(("gate-", "acc-"))] + [t for t in ("act-queued+close", "act-queued", "nst-start-never-up", "nst-start-refused", "nst-join") if t in tags]
     tags = first + [t for t in sorted(set(tags)) if t not in first]
     return case.get("mode", "async")[0] + case.get("kind", "tcp")[0] + "/" + "+".join(tags[:3])
 
@@ -707,7 +748,68 @@ def corpus() -> list[dict]:
     cs.append({**base, "progs": [["serve"], ["conn", "close", "probe", "echo", "disc"]], "sched": [[0, 0]]})
     cs.append({**base, "progs": [["serve"], ["conn", "close", "serve", "shutdown"]], "sched": [[0, 0]]})
     cs.append({**base, "progs": [["serve"], ["conn", "cancel:0", "probe"], ["serve"]], "sched": [[0, 0], [], [], [], [], [], [], [], [1, 0], [1, 0], [], [2, 0]]})
-    return cs + corpus_activation()
+    return cs + corpus_activation() + corpus_accept()
+
+
+CAPACITY_ERRNOS = ("EMFILE", "ENFILE", "ENOMEM", "ENOBUFS")        # constants.ACCEPT_CAPACITY_ERRNOS: log, sleep 100 ms, retry
+IGNORABLE_ERRNOS = ("ECONNABORTED", "EPROTO", "EHOSTUNREACH")       # some of constants.IGNORABLE_ACCEPT_ERRNOS: retry at once
+
+
+def corpus_accept() -> list[dict]:
+    """accept() failing with a capacity error (file descriptors / memory exhausted): the listener's accept loop logs and
+    sleeps 100 ms before it retries.  The loop's clock is frozen, so the back-off lasts until a `tick`: a shutdown() /
+    server_close() / task.cancel() issued meanwhile lands INSIDE the back-off sleep.  Then the same server object must
+    serve again (stopped, not closed) — an echo proves it — or refuse (closed)."""
+    cs: list[dict] = []
+    base = {"mode": "async", "kind": "tcp", "init_hops": 1, "fac_hops": 1}
+    k_of = {0: 9, 1: 11, 2: 14}
+    n = 0
+    for err in CAPACITY_ERRNOS:
+        for stop in ("shutdown", "close", "cancel:0"):
+            tail = ["probe"] if stop == "close" else ["echo", "probe"]
+            for v in range(3):
+                k = k_of[(n + v) % 3]
+                n += 1
+                if v == 0:
+                    # the very first accept() fails (Linux allocates the descriptor before it looks at the queue), stop in the back-off
+                    acc, p1 = [err], [stop] + tail
+                elif v == 1:
+                    # the back-off ends, accept() fails again (another errno of the family), stop in the second back-off
+                    acc, p1 = [err, CAPACITY_ERRNOS[(n + 1) % 4]], ["tick", stop] + tail
+                else:
+                    # a client is accepted and served, then accept() fails over and over; stop in a back-off
+                    acc, p1 = ["ok"] + [err] * 12, ["echo", stop] + tail
+                cs.append({**base, "acc": acc, "progs": [["serve", "serve"], p1], "sched": [[0, 0]] + [[]] * k + [[1, 0]]})
+        # an error that is retried at once, then a capacity error; two stops racing in the back-off; restart twice
+        cs.append({**base, "acc": [IGNORABLE_ERRNOS[n % 3], err], "progs": [["serve", "serve"], ["shutdown", "echo"]], "sched": [[0, 0]] + [[]] * 10 + [[1, 0]]})
+        cs.append({**base, "acc": [err], "progs": [["serve", "serve"], ["shutdown", "echo"], ["shutdown", "probe"]],
+                   "sched": [[0, 0]] + [[]] * 10 + [[1, 0], [2, 0]]})
+        cs.append({**base, "acc": [err], "progs": [["serve", "serve"], ["shutdown", "probe"], ["close", "probe"]],
+                   "sched": [[0, 0]] + [[]] * 10 + [[1, 0], [2, 1]]})
+        cs.append({**base, "acc": [err, "ok", err], "progs": [["serve", "serve", "serve"], ["shutdown", "tick", "echo", "shutdown", "echo"]],
+                   "sched": [[0, 0]] + [[]] * 10 + [[1, 0]]})
+        # the stop arrives at every turn around the moment the accept loop starts and fails
+        for k in range(4, 9):
+            cs.append({**base, "acc": [err], "progs": [["serve", "serve"], ["shutdown", "echo"]], "sched": [[0, 0]] + [[]] * k + [[1, 0]]})
+    return cs
+
+
+def _accept_async(rng) -> dict:
+    """random histories around a failing accept(): 1-3 other callers, stops / ticks / echoes / restarts"""
+    n = rng.choice([2, 2, 3])
+    acc: list[str] = []
+    for _ in range(rng.randint(1, 4)):
+        r = rng.random()
+        acc.extend(["ok"] if r < 0.2 else [rng.choice(IGNORABLE_ERRNOS)] if r < 0.3 else [rng.choice(CAPACITY_ERRNOS)] * rng.choice([1, 1, 2, 6]))
+    progs = [["serve"] + [rng.choice(["serve", "serve", "probe"]) for _ in range(rng.randint(1, 2))]]
+    for i in range(1, n):
+        progs.append([rng.choice(["shutdown", "shutdown", "close", "cancel:0", "tick", "tick", "echo", "probe", "serve"]) for _ in range(rng.randint(1, 4))])
+    sched: list[list[int]] = [[0, 0]] + [[]] * rng.choice([5, 7, 8, 9, 9, 10, 12])
+    for _ in range(rng.randint(1, 5)):
+        sched.append([rng.randrange(1, n), rng.choice([0, 0, 1])])
+        sched.extend([[]] * rng.choice([0, 0, 1, 2, 4]))
+    return {"mode": "async", "kind": "tcp", "progs": progs, "sched": sched, "acc": acc,
+            "init_hops": rng.choice([0, 1, 2]), "fac_hops": rng.choice([0, 1, 2])}
 
 
 def corpus_activation() -> list[dict]:
@@ -832,6 +934,8 @@ def generate(rng, tier: str, boost: int):
         yield _dense_async(rng) if rng.random() < 0.5 else _rand_async(rng)
     for _ in range(n_act):
         yield _activation_async(rng)
+    for _ in range((60 if tier == "quick" else 1500) * boost):
+        yield _accept_async(grng)
     if tier != "quick" and boost == 1:
         # exhaustive sweep: runner + two other callers, every pair of (op, turn) with turn in 0..11
         for kind in ("tcp", "udp"):
